@@ -174,7 +174,7 @@ def ev(fn, n, atom=None, depth=0):
         c = ev(fn, n.kids[0], atom, depth + 1)
         return ev(fn, n.kids[1] if c else n.kids[2], atom, depth + 1)
     if k == "DeclRefExpr" and n.dk == "local" and n.did:
-        v = fn.single_def(n.did)
+        v = fn.reaching_def(n)
         if v is not None:
             return ev(fn, v, atom, depth + 1)
     if n.cv is not None:
@@ -282,3 +282,87 @@ def macro_of(n):
         ks = m.kids
         m = ks[0] if ks else None
     return None
+
+
+def forced_edges(fn, atom, forbid=None):
+    """edge_ok predicate: every branch whose condition is evaluable under `atom` is forced to its
+    evaluated outcome; edges for which forbid(leaf, polarity) holds are removed."""
+    cache = {}
+
+    def edge_ok(b, idx):
+        k = (b, idx)
+        if k in cache:
+            return cache[k]
+        ec = fn.edge_cond(b, idx)
+        ok = True
+        if ec is not None:
+            if forbid is not None and forbid(ec[0], ec[1]):
+                ok = False
+            else:
+                try:
+                    v = ev(fn, ec[0], atom)
+                    ok = bool(v) == ec[1]
+                except Unevaluable:
+                    ok = True
+        cache[k] = ok
+        return ok
+    return edge_ok
+
+
+def atom_from(pairs):
+    """pairs: list of (predicate, value)"""
+    def atom(n):
+        for p, v in pairs:
+            if p(n):
+                return v
+        return None
+    return atom
+
+
+def is_load_of(fn, rec, field):
+    ids = {l.node.id for l in fn.loads_of(rec, field)}
+    return lambda n: n.id in ids
+
+
+def is_cas_on(fn, rec, field):
+    ids = {s.node.id for s in fn.stores_to(rec, field) if s.aop == "cas"}
+    return lambda n: n.id in ids
+
+
+FULL_FENCE_CALLS = {"store_load_barrier", "__sync_synchronize"}
+COMPILER_FENCE_CALLS = {"write_barrier", "load_load_barrier", "store_load_barrier", "cpu_relax", "__sync_synchronize"}
+
+
+def is_full_fence(fn):
+    """Elements that order an earlier store against a later load on x86: a locked RMW with
+    acq_rel/seq_cst order, a seq_cst store (xchg), store_load_barrier(), seq_cst thread fence."""
+    ids = set()
+    for s in fn.stores():
+        if s.kind in ("atomic", "sync"):
+            if s.aop == "store":
+                if s.order == "seq_cst":
+                    ids.add(s.node.id)
+            elif s.order in ("acq_rel", "seq_cst"):
+                ids.add(s.node.id)
+        elif s.kind in ("assign", "compound", "incdec") and s.order == "seq_cst":
+            ids.add(s.node.id)
+    for c in fn.calls():
+        if c.callee in FULL_FENCE_CALLS:
+            ids.add(c.id)
+        if c.callee in ("__c11_atomic_thread_fence", "__atomic_thread_fence", "atomic_thread_fence"):
+            a = fn.args(c)
+            if a and a[0].cv == 5:
+                ids.add(c.id)
+    return lambda n: n.id in ids
+
+
+def is_compiler_fence(fn):
+    ids = set()
+    for c in fn.calls():
+        if c.callee in COMPILER_FENCE_CALLS:
+            ids.add(c.id)
+    for n in fn.all(k="GCCAsmStmt"):
+        if "memory" in (n.clobbers or []):
+            ids.add(n.id)
+    full = is_full_fence(fn)
+    return lambda n: n.id in ids or full(n)
